@@ -65,6 +65,10 @@ def main():
             p = os.path.join(out, step[1])
             os.makedirs(os.path.dirname(p), exist_ok=True)
             os.symlink(step[2], p)
+        elif op == "fifo":
+            p = os.path.join(out, step[1])
+            os.makedirs(os.path.dirname(p), exist_ok=True)
+            os.mkfifo(p, 0o640)
         elif op == "gate":
             rec("gated")
             with open(os.path.join(scn["gates"], task.replace("/", "_").replace(":", "_")), "r") as g:
